@@ -20,19 +20,22 @@ type wsClient struct {
 	textMode  bool // send the stream as text messages (must be rejected)
 	Frames    int
 	NonBinary int
-	Msgs      []int // sizes of the binary messages sent
+	Msgs      []int    // sizes of the binary messages sent
 	waiting   []func() // sends deferred until the upgrade is complete
 }
 
+//go:norace
 func newWSClient(w *World) *wsClient { return &wsClient{mode: w.netRng.IntN(6)} }
 
 const wsRequest = "GET / HTTP/1.1\r\nHost: sim\r\nUpgrade: websocket\r\nConnection: Upgrade\r\n" +
 	"Sec-WebSocket-Key: dGhlIHNhbXBsZSBub25jZQ==\r\nSec-WebSocket-Version: 13\r\nSec-WebSocket-Protocol: mqtt\r\n\r\n"
 
+//go:norace
 func (ws *wsClient) handshake(w *World, c *cconn) {
 	c.enqueueRaw(w, []byte(wsRequest))
 }
 
+//go:norace
 func wsFrame(op byte, fin bool, payload []byte, key [4]byte) []byte {
 	var b []byte
 	h := op
@@ -60,12 +63,16 @@ func wsFrame(op byte, fin bool, payload []byte, key [4]byte) []byte {
 }
 
 // frame turns MQTT bytes into one or more WebSocket messages.
+//
+//go:norace
 func (ws *wsClient) frame(w *World, b []byte) []byte {
 	stream := append(ws.pending, b...)
 	ws.pending = nil
 	rng := w.netRng
 	var out []byte
-	key := func() [4]byte { return [4]byte{byte(rng.IntN(256)), byte(rng.IntN(256)), byte(rng.IntN(256)), byte(rng.IntN(256))} }
+	key := func() [4]byte {
+		return [4]byte{byte(rng.IntN(256)), byte(rng.IntN(256)), byte(rng.IntN(256)), byte(rng.IntN(256))}
+	}
 	emit := func(p []byte) {
 		if len(p) == 0 {
 			return
@@ -140,6 +147,8 @@ func (ws *wsClient) frame(w *World, b []byte) []byte {
 }
 
 // flushPending returns frames for held-back bytes (called by a timer so that nothing is held forever).
+//
+//go:norace
 func (ws *wsClient) flushPending(w *World) []byte {
 	if len(ws.pending) == 0 {
 		return nil
@@ -154,6 +163,8 @@ func (ws *wsClient) flushPending(w *World) []byte {
 var errWS = errors.New("websocket protocol error")
 
 // unframe consumes bytes written by the broker and returns the payload bytes of complete binary messages.
+//
+//go:norace
 func (ws *wsClient) unframe(w *World, c *cconn, b []byte, step int) ([]byte, error) {
 	if !ws.upgraded {
 		ws.hsBuf = append(ws.hsBuf, b...)
@@ -219,6 +230,8 @@ func (ws *wsClient) unframe(w *World, c *cconn, b []byte, step int) ([]byte, err
 }
 
 // enqueueRaw queues raw bytes (no framing) for delivery.
+//
+//go:norace
 func (c *cconn) enqueueRaw(w *World, b []byte) {
 	c.sendSeq++
 	at := time.Now().Add(w.latency())
